@@ -221,12 +221,14 @@ Lemma invoke_log : forall (m : migration) i fuel (st : mstate) tok st' t' e,
        o = Done \/ (o = NilWithCtxErr /\ exists db tk, snd (mig_step m db tk true) = NilWithCtxErr)).
 Proof.
   induction fuel; intros st tok st' t' e H; simpl in H; try discriminate.
-  destruct (mig_step m (pdb (ms_p st)) tok (cancelled (ms_clk st))) as [db' o] eqn:Es.
+  destruct (mig_step m (pdb (ms_p st)) tok _) as [db' o] eqn:Es.
   destruct (cancelled (ms_clk st)) eqn:Ec.
-  - inversion H; subst; clear H. exists o. split; auto.
+  - simpl in Es. inversion H; subst; clear H. exists o. split; auto.
     intros Ht He. destruct o; try discriminate; auto; try congruence.
     right. split; auto. exists (pdb (ms_p st)), tok. rewrite Es. reflexivity.
-  - destruct o.
+  - destruct (faulted (ms_clk st)) eqn:Ef.
+    { inversion H; subst. eexists. split; [reflexivity|]. intros; congruence. }
+    destruct o.
     + inversion H; subst. exists Done. split; auto.
     + apply IHfuel in H. destruct H as [o [Hl Ho]]. exists o. split; auto.
     + inversion H; subst. eexists. split; [reflexivity|]. intros; discriminate.
@@ -239,8 +241,9 @@ Lemma invoke_none_log : forall (m : migration) i fuel (st : mstate) tok st',
 Proof.
   induction fuel; intros st tok st' H; simpl in H.
   - inversion H; auto.
-  - destruct (mig_step m (pdb (ms_p st)) tok (cancelled (ms_clk st))) as [db' o].
+  - destruct (mig_step m (pdb (ms_p st)) tok _) as [db' o].
     destruct (cancelled (ms_clk st)); try discriminate.
+    destruct (faulted (ms_clk st)); try discriminate.
     destruct o; try discriminate. apply IHfuel in H. rewrite H. reflexivity.
 Qed.
 
@@ -266,6 +269,7 @@ Proof.
     unfold after_migrate in H.
     destruct (match e with ENil => false | ECtx => negb (cancelled (ms_clk st1)) | EOther => true end) eqn:Ea.
     { inversion H; subst; auto. }
+    destruct (faulted (ms_clk st1)). { inversion H; subst; auto. }
     destruct t' as [t|].
     + simpl in H.
       destruct (cancelled (tick (ms_clk st1))).
@@ -287,6 +291,7 @@ Proof.
   destruct (beyond_registry _ _ _). { inversion H; subst; auto. }
   destruct (opt_out_attempt _ _ _). { inversion H; subst; auto. }
   destruct (vcontains _ _); cbn [negb] in H. 2:{ inversion H; subst; auto. }
+  destruct (faulted c). { inversion H; subst; auto. }
   destruct (bits_of _) eqn:Eb. { inversion H; subst; auto. }
   eapply run_pending_log_ok in H; eauto.
 Qed.
@@ -300,10 +305,12 @@ Lemma invoke_cur : forall (m : migration) i fuel (st : mstate) tok st' r,
 Proof.
   induction fuel; intros st tok st' r H; simpl in H.
   - inversion H; subst. auto.
-  - destruct (mig_step m (pdb (ms_p st)) tok (cancelled (ms_clk st))) as [db' o].
+  - destruct (mig_step m (pdb (ms_p st)) tok _) as [db' o].
     destruct (cancelled (ms_clk st)).
     + inversion H; subst; simpl. repeat split; auto. intros p [Hp|Hp]; subst; auto.
-    + assert (G : forall st1 r1, (st1, r1) = (st', r) ->
+    + destruct (faulted (ms_clk st)).
+      { inversion H; subst; simpl. repeat split; auto. intros p [Hp|Hp]; subst; auto. }
+      assert (G : forall st1 r1, (st1, r1) = (st', r) ->
          ms_p st1 = with_db db' (ms_p st) -> ms_trace st1 = with_db db' (ms_p st) :: ms_trace st ->
          cur (ms_p st') = cur (ms_p st) /\ last (ms_p st') = last (ms_p st) /\ inter (ms_p st') = inter (ms_p st) /\
          (forall p, In p (ms_trace st') -> In p (ms_trace st) \/
@@ -361,6 +368,11 @@ Proof.
       - intros j Hj. rewrite A in Hj. auto.
       - intros p Hp. apply D in Hp. destruct Hp as [Hp|[Hp _]]; auto. right. intros j Hj. rewrite Hp in Hj. auto.
       - exists []. rewrite AE, app_nil_r. auto. }
+    destruct (faulted (ms_clk st1)).
+    { inversion H; subst. cbn [disarm ms_p ms_trace ms_log ms_clk] in *. repeat split.
+      - intros j Hj. rewrite A in Hj. auto.
+      - intros p Hp. apply D in Hp. destruct Hp as [Hp|[Hp _]]; auto. right. intros j Hj. rewrite Hp in Hj. auto.
+      - exists []. rewrite AE, app_nil_r. auto. }
     destruct t' as [t|].
     + simpl in H. destruct (cancelled (tick (ms_clk st1))).
       * inversion H; subst; simpl. repeat split.
@@ -406,6 +418,8 @@ Proof.
   { inversion H; subst; simpl in *. destruct Hp as [Hp|[]]; subst; auto. }
   destruct (vcontains _ _); cbn [negb] in H.
   2:{ inversion H; subst; simpl in *. destruct Hp as [Hp|[]]; subst; auto. }
+  destruct (faulted c).
+  { inversion H; subst; simpl in *. destruct Hp as [Hp|[]]; subst; auto. }
   destruct (bits_of _) eqn:Eb.
   { inversion H; subst; simpl in *. destruct Hp as [Hp|[Hp|[]]]; subst; auto. }
   apply run_pending_bits in H. simpl in H. destruct H as [H1 [H2 _]].
@@ -440,6 +454,8 @@ Proof.
     unfold after_migrate in H.
     destruct (match e with ENil => false | ECtx => negb (cancelled (ms_clk st1)) | EOther => true end).
     { inversion H; subst. exists [i], rest. repeat split; auto. discriminate. }
+    destruct (faulted (ms_clk st1)).
+    { inversion H; subst. cbn [disarm ms_p ms_trace ms_log ms_clk] in *. exists [i], rest. repeat split; auto. discriminate. }
     destruct t' as [t|].
     + simpl in H. destruct (cancelled (tick (ms_clk st1))).
       * inversion H; subst; simpl. exists [i], rest. rewrite invocations_cons, app_nil_r.
@@ -469,6 +485,8 @@ Proof.
   { inversion H; subst; simpl. split. exists pend; auto. discriminate. }
   destruct (vcontains _ _); cbn [negb] in H.
   2:{ inversion H; subst; simpl. split. exists pend; auto. discriminate. }
+  destruct (faulted c).
+  { inversion H; subst; simpl. split. exists pend; auto. discriminate. }
   fold pend in H. destruct pend eqn:Ep.
   { inversion H; subst; simpl. split; auto. exists []; auto. }
   apply run_pending_order in H. destruct H as [done [rest [E1 [E2 E3]]]]. simpl in E2.
